@@ -2,7 +2,7 @@ import EV.Model.Wire
 import EV.Model.System
 
 /-! Driver for suite `notifcache` (model `EV.System`):
-  NEW <sessions> <hashXs> [fix] | CH x | MP x m | FL x m | ADV d | BK | RS | NT h a,b | SUB s x |
+  NEW <sessions> <hashXs> [copy] [raise] (pinned variants: stale-copy comparison / raising refresh) | CH x | MP x m | FL x m | ADV d | BK | RS | NT h a,b | SUB s x |
   UNS s x | CLOSE s | HS s | GH s x | EVICT x | RD i | RF i | HD i | HF i
 The reply is the observable state, then ` # ` and the ghost fields. -/
 open EV EV.Wire EV.System
@@ -45,13 +45,13 @@ def stepLine (ds : DSt) (line : String) : DSt × String :=
   let n2 (x y : String) (k : Nat → Nat → Ev) : DSt × String :=
     match x.toNat?, y.toNat? with | some x, some y => go (k x y) | _, _ => bad
   match words line with
-  | ["NEW", ns, nhx] =>
+  | "NEW" :: ns :: nhx :: opts =>
     match ns.toNat?, nhx.toNat? with
-    | some a, some b => ({ f := {}, st := init a b }, showSt (init a b))
-    | _, _ => bad
-  | ["NEW", ns, nhx, "fix"] =>
-    match ns.toNat?, nhx.toNat? with
-    | some a, some b => ({ f := { cmpLive := true }, st := init a b }, showSt (init a b))
+    | some a, some b =>
+      if opts.all (fun o => o == "copy" || o == "raise") then
+        ({ f := { cmpLive := !opts.contains "copy", raiseOnRace := opts.contains "raise" }, st := init a b },
+          showSt (init a b))
+      else bad
     | _, _ => bad
   | ["CH", x] => n1 x .change
   | ["MP", x, m] => n2 x m .mpChange
